@@ -255,6 +255,54 @@ def extremes(ctx, mech_mod, mst, ada, mwem):
             ctx.violation("adaptive_grid.exponential_mechanism(eps=inf) raised %r" % ex, {"q": q}, {"kind": "crash", "primitive": "adaptive_grid"})
 
 
+def zero_base_measure(ctx, mech_mod):
+    """A candidate whose base measure is exactly 0 is never drawn, however far its quality leads."""
+    M = _OBJ["M"]
+    for q, bm in (({"a": 4000.0, "b": 0.0, "c": 1.0}, {"a": 0.0, "b": 1.0, "c": 3.0}), ({"x": 1e6, "y": -5.0}, {"x": 0.0, "y": 2.0}),
+                  ({"a": 10.0, "b": 10.0, "c": 9.0}, {"c": 0.0, "a": 1.0, "b": 1.0})):
+        for eps in (1.0, 0.05):
+            ctx.case(("zero_base", json.dumps(q), eps), nontrivial=True)
+            cap = Capture()
+            M.prng = cap
+            try:
+                with np.errstate(all="ignore"):
+                    M.exponential_mechanism(dict(q), eps, 1.0, base_measure=dict(bm))
+                p = cap.calls[-1][4]
+            except Exception as ex:
+                ctx.violation("exponential_mechanism with a zero base measure raised %r" % ex, {"q": q, "base_measure": bm, "eps": eps}, {"kind": "extreme"})
+                continue
+            keys = list(q.keys())
+            z = np.array([0.5 * eps * q[k_] for k_ in keys])
+            w = np.array([bm[k_] for k_ in keys])
+            live = w > 0
+            zz = z - z[live].max()
+            want = np.where(live, w * np.exp(np.where(live, zz, -np.inf)), 0.0)
+            want = want / want.sum()
+            if p is None or p.shape != want.shape or not np.all(np.isfinite(p)) or not np.allclose(p, want, rtol=0, atol=1e-12) or np.any(p[~live] != 0):
+                ctx.violation("Mechanism.exponential_mechanism(dict, base_measure with an exact 0) draws with p = %s, the specified law gives %s" % (
+                    None if p is None else p.tolist(), want.tolist()), {"q": q, "base_measure": bm, "eps": eps}, {"kind": "extreme"})
+
+
+def mwem_scales(ctx, rng):
+    """The scale MWEM+PGM hands to its sampler: sensitivity / (alpha * eps per round) for Laplace noise, with the L1
+    sensitivity of a marginal doubled under bounded (replace-one) adjacency."""
+    from .. import mech as MM
+    for bounded in (False, True):
+        for alpha, rounds, eps in ((0.9, 1, 1.0), (0.5, 2, 3.0)):
+            p = {"epsilon": eps, "delta": 0.0, "noise": "laplace", "bounded": bounded, "rounds": rounds, "alpha": alpha}
+            ip = R.Interposer(rng.randrange(10 ** 6))
+            out, err = MM.run_mechanism("MWEM", p, [[0, 1], [1, 0], [1, 1]], ["a", "b"], [2, 2], ip)
+            ctx.case(("mwem_scale", bounded, alpha, rounds, eps), nontrivial=True)
+            if err:
+                ctx.violation("MWEM+PGM %s" % err, p, {"kind": "crash"})
+                continue
+            want = (2.0 if bounded else 1.0) / (alpha * eps / rounds)
+            got = [e_["scale"] for e_ in ip.events if e_["e"] == "Release"]
+            if not got or any(not math.isclose(g_, want, rel_tol=1e-12) or e_["kind"] != "laplace" for g_, e_ in zip(got, [e_ for e_ in ip.events if e_["e"] == "Release"])):
+                ctx.violation("noise helpers: MWEM+PGM (laplace, bounded=%s) draws its noise with scale %s, sensitivity/epsilon gives %r" % (bounded, got, want),
+                              p, {"kind": "noise"})
+
+
 def noise_helpers(ctx, mech_mod, rng):
     for bounded in (False, True):
         for _ in range(20):
@@ -436,6 +484,8 @@ def run(ctx, canary=False):
         objects(mech_mod, aim)
         extremes(ctx, mech_mod, mst, ada, mwem)
         noise_helpers(ctx, mech_mod, rng)
+        zero_base_measure(ctx, mech_mod)
+        mwem_scales(ctx, rng)
         beyond_c20(ctx, mech_mod, rng, thorough)
     if emits:
         ctx.sample({"lattice case": emits[0]})
